@@ -2,13 +2,13 @@ SPECIFICATION Spec
 CONSTANTS
   CTXS = {"c1", "c2"}
   NAMES = {"a", "b"}
-  IVS = {1, 2, 3}
+  IVS = {1}
   PTS = {"fw1"}
-  GEN = "fresh"
+  GEN = "any"
   LITERAL = "matches"
   INITKMS = "each"
   MAXOPS = 3
-  EMIT = FALSE
+  EMIT = TRUE
 INVARIANT DecryptsToFirmware
-INVARIANT IvsPairwiseDistinctPerKey
+INVARIANT Emit
 CHECK_DEADLOCK FALSE
